@@ -460,7 +460,7 @@ class Graph:
     edges: list                  # (src, label, dst)
 
 
-_DOT_NODE = re.compile(r'^(-?\d+) \[label="(.*)"(?:,style = filled)?\];?$')
+_DOT_NODE = re.compile(r'^(-?\d+) \[label="((?:[^"\\]|\\.)*)"')
 _DOT_EDGE = re.compile(r'^(-?\d+) -> (-?\d+) \[label="((?:[^"\\]|\\.)*)".*\];?$')
 
 
